@@ -179,7 +179,6 @@ def z3_apps_of(outs, fname):
 def body(C):
     sz = sizes(C.tier)
     C.engine(['idval'], N=8)        # regenerates the MIR dump + item index from /repo (shared by the workers)
-    C.build_replayer()
     C.assumptions += [
         f'level A (server_name::validate vs the server-name grammar): every well-formed UTF-8 string of at most {sz["A"]} bytes',
         f'level B (all other validators): every well-formed UTF-8 string of at most {sz["B"]} bytes, with server_name::validate '
@@ -195,7 +194,14 @@ def body(C):
     only = os.environ.get('VERIF_ONLY')
     if only:
         labels = [l for l in labels if l in only.split(',')]
-    parallel_map(C, run_target, labels)
+    # level C: public parse path + component accessors of ruma-common (needs its MIR and item index as well)
+    import c10_accessors as A
+    acc = [a for a in A.ACCESSORS if not only or a in only.split(',')]
+    if acc:
+        C.engine(['common'], N=8)
+        C.assumptions.append('level C (accessors): ServerName <= 32 bytes with the real validator; UserId/RoomAliasId/EventId <= 300 bytes with the server-name summary; KeyId/MxcUri accessors and the owned/Arc/serde forms are outside this run')
+    C.build_replayer(['common'])
+    parallel_map(C, [(run_target, l) for l in labels] + [(A.run_accessors, a) for a in acc], None)
 
 
 if __name__ == '__main__':
